@@ -283,6 +283,10 @@ func verifyFunction(P *Program, db *SpecDB, ti *TypeInfo, fn *ssa.Function, c *C
 		penv.bindResults(c, result, rt)
 		e.addObl(&Obligation{Name: "cover:return", Kind: "cover", Cover: true, Clause: "a normal return is reachable under the precondition", Reach: final.reach, Goal: "false"})
 		for i, en := range c.Ensures {
+			if en.Trusted {
+				e.trustedClauses = append(e.trustedClauses, c.Key+": "+en.Src)
+				continue
+			}
 			g, err := penv.evalBool(en.E)
 			if err != nil {
 				e.unsupportedf("ensures %s: %v", en.Src, err)
